@@ -72,6 +72,17 @@ def resolveAll : List Src → Nat → List Val
   | [], _ => []
   | s :: ss, i => resolve (explicit s) (contractDefault i) :: resolveAll ss (i + 1)
 
+/-- value of one of the other `bitcoin.electrum.*` settings (timeouts, keep-alive). -/
+inductive TVal | file | flag | flagDefault | zero
+  deriving DecidableEq, Repr
+
+/-- the other Electrum settings are never touched by default resolution: an explicit value is
+kept; an unset one is the flag's default, or the zero value when there is no flag set. -/
+def resolveTimeout (nilFlags : Bool) : Src → TVal
+  | .file => .file
+  | .flag | .both => .flag
+  | _ => if nilFlags then .zero else .flagDefault
+
 inductive Rc | ok | validation | flags
   deriving DecidableEq, Repr
 
@@ -82,17 +93,19 @@ structure Out where
   peers : Val
   electrum : Val
   contracts : List Val
+  timeouts : List TVal
   deriving DecidableEq, Repr
 
-def readConfig (f : Flags) (peers electrum : Src) (cs : List Src) : Out :=
-  if !f.accepted then ⟨.flags, 0, 0, .none, .none, []⟩ else
+def readConfig (f : Flags) (peers electrum : Src) (cs ts : List Src) : Out :=
+  if !f.accepted then ⟨.flags, 0, 0, .none, .none, [], []⟩ else
   let cn := chainNetwork f
   let e := resolve (explicit electrum) (electrumDefault (btcOf cn))
   { rc := if e = .none then .validation else .ok
     eth := ethOf cn, btc := btcOf cn
     peers := resolve (explicit peers) (peersDefault (clientNetwork f))
     electrum := e
-    contracts := resolveAll cs 0 }
+    contracts := resolveAll cs 0
+    timeouts := ts.map (resolveTimeout f.nilFlags) }
 
 /-! ## Monitor -/
 
@@ -108,13 +121,26 @@ def holdsVals : List Src → List Val → Nat → Bool
   | s :: ss, v :: vs, i => holdsVal s (contractDefault i) v && holdsVals ss vs (i + 1)
   | _, _, _ => false
 
-def holds (f : Flags) (peers electrum : Src) (cs : List Src) (o : Out) : Bool :=
+/-- an explicitly configured Electrum setting must be kept whatever happens to the URL. -/
+def holdsTimeout (s : Src) (v : TVal) : Bool :=
+  match s with
+  | .file => decide (v = .file)
+  | .flag | .both => decide (v = .flag)
+  | _ => decide (v = .flagDefault) || decide (v = .zero)
+
+def holdsTimeouts : List Src → List TVal → Bool
+  | [], [] => true
+  | s :: ss, v :: vs => holdsTimeout s v && holdsTimeouts ss vs
+  | _, _ => false
+
+def holds (f : Flags) (peers electrum : Src) (cs ts : List Src) (o : Out) : Bool :=
   if o.rc = .flags then !f.accepted else
   f.accepted &&
   -- both chains belong to one network, the selected one
   decide (o.eth = ethOf (chainNetwork f)) && decide (o.btc = btcOf (chainNetwork f)) &&
   holdsVal peers (peersDefault (clientNetwork f)) o.peers &&
   holdsVal electrum (electrumDefault o.btc) o.electrum &&
-  holdsVals cs o.contracts 0
+  holdsVals cs o.contracts 0 &&
+  holdsTimeouts ts o.timeouts
 
 end KeepVerif.C44
